@@ -1,35 +1,48 @@
 (** Model of the filter-list refresh in internal/filtering/filter.go (C15):
-    [updateIntl]/[finalizeUpdate], [refreshFiltersArray], [refreshFiltersIntl]
-    and the part of [enableFiltersLocked]/[newRuleStorage] that decides which
-    text is in force.  No proofs here.
+    [listsToUpdate], [update]/[updateIntl]/[finalizeUpdate] (with
+    [ensureName]), the copy-back loop of [refreshFiltersArray],
+    [refreshFiltersIntl], [filterSetProperties] for a change of name and of
+    the enabled flag (as driven by [handleFilteringSetURL]), and the part of
+    [enableFiltersLocked]/[newRuleStorage] that decides which text is in
+    force.  No proofs here.
 
     A list is identified by its ID (IDs are unique over both arrays, as
-    [idGenerator] guarantees; URL is constant during a refresh, so the
-    ID-and-URL match of the copy-back loop is a match on the ID).  Files are a
-    finite map ID -> content (absent = no file).  The engine holds, per
-    enabled list, the content its file had when the engine was last rebuilt
-    (urlfilter keeps the replaced file open, so a later rename does not show
-    through).  Names, timestamps and the ".old" files are not modelled. *)
+    [idGenerator] guarantees; the URL of a list is constant, so the
+    ID-and-URL match of the copy-back loop is a match on the ID and the URL
+    lookup of [filterSetProperties] is a lookup by ID).  Files are a finite
+    map ID -> (generation, content); absent = no file; the generation counts
+    the replacements of the file (what the inode shows on the real file).
+    The engine holds, per enabled list, the content its file had when the
+    engine was last rebuilt (urlfilter keeps the replaced file open, so a
+    later rename does not show through).  Timestamps (the [due] oracle stands
+    for [LastUpdated] + interval < now) and the ".old" files are not
+    modelled. *)
 From Coq Require Import NArith List Bool.
 From AGH Require Import Base.Run Model.RuleListParser.
 Import ListNotations.
 Local Open Scope N_scope.
 
-Record flist := { f_id : N; f_enabled : bool; f_count : N; f_sum : N }.
+Record flist := { f_id : N; f_enabled : bool; f_name : bytes; f_count : N; f_sum : N }.
 
-Definition files := list (N * bytes).
-Definition fget (i : N) (fs : files) : option bytes :=
+Definition files := list (N * (N * bytes)).
+Definition fentry (i : N) (fs : files) : option (N * bytes) :=
   match find (fun e => fst e =? i) fs with Some e => Some (snd e) | None => None end.
+Definition fget (i : N) (fs : files) : option bytes :=
+  match fentry i fs with Some e => Some (snd e) | None => None end.
+(** Number of times the file of list [i] has been replaced. *)
+Definition fgen (i : N) (fs : files) : N :=
+  match fentry i fs with Some e => fst e | None => 0 end.
 Definition fset (i : N) (c : bytes) (fs : files) : files :=
-  (i, c) :: filter (fun e => negb (fst e =? i)) fs.
+  (i, (fgen i fs + 1, c)) :: filter (fun e => negb (fst e =? i)) fs.
+(** [os.Remove], "does not exist" ignored. *)
+Definition fdel (i : N) (fs : files) : files := filter (fun e => negb (fst e =? i)) fs.
 
 (** What the reader of a list does in one refresh. *)
 Inductive outcome :=
   | OOpenErr                                  (* connection error, status <> 200, unreadable / unsafe path *)
   | OBody (data : bytes) (read_err : bool)    (* body bytes delivered, then EOF or an error *)
-  | ORenameFail (data : bytes).               (* complete body, but [CloseReplace] of the pending
-                                                 file fails.  Not among the property's failures and
-                                                 not produced by the harness: model of the code only *)
+  | ORenameFail (data : bytes).               (* complete body, but the pending file cannot replace the
+                                                 list's file ([CloseReplace] fails) nor be cleaned up *)
 
 Record engine := { e_block : list (N * bytes); e_allow : list (N * bytes) }.
 
@@ -40,17 +53,49 @@ Record rstate := {
   r_engine : engine;
 }.
 
-(** Result of [update] for one list. *)
-Record upd := { u_id : N; u_updated : bool; u_err : bool; u_count : N; u_sum : N }.
+(** Result of [update] for one list: the flags and the list structure it
+    worked on (a working copy during a refresh, the configured entry itself in
+    [filterSetProperties]). *)
+Record upd := { u_updated : bool; u_err : bool; u_list : flist }.
+
+(** [strconv]'s decimal rendering, for the default name "List <id>". *)
+Fixpoint dec_digits (fuel : nat) (n : N) (acc : bytes) : bytes :=
+  match fuel with
+  | O => acc
+  | S f => let acc' := (48 + n mod 10) :: acc in
+           if n / 10 =? 0 then acc' else dec_digits f (n / 10) acc'
+  end.
+Definition decimal (n : N) : bytes := dec_digits 40 n [].
+
+(** [ensureName] *)
+Definition ensure_name (id : N) (name title : bytes) : bytes :=
+  match name with
+  | _ :: _ => name
+  | [] => match title with
+          | _ :: _ => title
+          | [] => [76; 105; 115; 116; 32] ++ decimal id      (* "List " *)
+          end
+  end.
+
+(** The copy [listsToUpdate] makes: ID, URL, name and checksum; the rule count
+    is not copied. *)
+Definition wcopy (l : flist) : flist :=
+  {| f_id := f_id l; f_enabled := false; f_name := f_name l; f_count := 0; f_sum := f_sum l |}.
 
 Section Refresh.
   Variable crc : N -> bytes -> N.
 
+  (** What [finalizeUpdate] fills in after the file has been replaced. *)
+  Definition filled (l : flist) (st : pstate) : flist :=
+    {| f_id := f_id l; f_enabled := f_enabled l;
+       f_name := ensure_name (f_id l) (f_name l) (p_title st);
+       f_count := p_count st; f_sum := p_sum st |}.
+
   (** [updateIntl] + [finalizeUpdate]: the pending file replaces the list's
       file only if parsing succeeded and the checksum differs. *)
   Definition update_one (l : flist) (o : outcome) (fs : files) : upd * files :=
-    let same := {| u_id := f_id l; u_updated := false; u_err := false; u_count := 0; u_sum := f_sum l |} in
-    let failed := {| u_id := f_id l; u_updated := false; u_err := true; u_count := 0; u_sum := f_sum l |} in
+    let same := {| u_updated := false; u_err := false; u_list := l |} in
+    let failed := {| u_updated := false; u_err := true; u_list := l |} in
     match o with
     | OOpenErr => (failed, fs)
     | OBody data re =>
@@ -58,20 +103,13 @@ Section Refresh.
         | (_, Some _) => (failed, fs)
         | (st, None) =>
             if p_sum st =? f_sum l then (same, fs)
-            else ({| u_id := f_id l; u_updated := true; u_err := false;
-                     u_count := p_count st; u_sum := p_sum st |},
+            else ({| u_updated := true; u_err := false; u_list := filled l st |},
                   fset (f_id l) (output st) fs)
         end
-    | ORenameFail data =>
-        (* [finalizeUpdate] returns the error before filling in the working
-           copy, but [updateIntl]'s result [ok] stays true *)
-        match parse crc data false with
-        | (_, Some _) => (failed, fs)
-        | (st, None) =>
-            if p_sum st =? f_sum l then (same, fs)
-            else ({| u_id := f_id l; u_updated := true; u_err := true;
-                     u_count := 0; u_sum := f_sum l |}, fs)
-        end
+    | ORenameFail _ =>
+        (* whatever was parsed: [CloseReplace] fails and the result [ok] is
+           cleared with it, or [Cleanup] of the vanished pending file fails *)
+        (failed, fs)
     end.
 
   Fixpoint update_all (ls : list flist) (oc : N -> outcome) (fs : files) : list upd * files :=
@@ -83,23 +121,37 @@ Section Refresh.
         (u :: us, fs2)
     end.
 
-  Definition apply_upd (us : list upd) (f : flist) : flist :=
-    match find (fun u => (u_id u =? f_id f) && u_updated u) us with
-    | Some u => {| f_id := f_id f; f_enabled := f_enabled f; f_count := u_count u; f_sum := u_sum u |}
-    | None => f
+  (** The body of the copy-back loop for one working copy and one configured
+      list: name, rule count and checksum, field by field. *)
+  Definition copy_back (u : upd) (f : flist) : flist :=
+    if (f_id (u_list u) =? f_id f) && u_updated u then
+      {| f_id := f_id f; f_enabled := f_enabled f;
+         f_name := f_name (u_list u);
+         f_count := f_count (u_list u);
+         f_sum := f_sum (u_list u) |}
+    else f.
+
+  Definition copied (u : upd) (ls : list flist) : N :=
+    N.of_nat (length (filter (fun f => (f_id (u_list u) =? f_id f) && u_updated u) ls)).
+
+  (** The two nested loops: number of copies made, the array afterwards. *)
+  Fixpoint copy_back_all (us : list upd) (ls : list flist) : N * list flist :=
+    match us with
+    | [] => (0, ls)
+    | u :: r => let '(n, ls') := copy_back_all r (map (copy_back u) ls) in (copied u ls + n, ls')
     end.
 
   (** [refreshFiltersArray]: count of updated lists, "network error" (all
       attempted lists failed), the array, the files. *)
   Definition refresh_array (ls : list flist) (force : bool) (due : N -> bool)
       (oc : N -> outcome) (fs : files) : N * bool * list flist * files :=
-    let to_upd := filter (fun l => f_enabled l && (force || due (f_id l))) ls in
+    let to_upd := map wcopy (filter (fun l => f_enabled l && (force || due (f_id l))) ls) in
     match to_upd with
     | [] => (0, false, ls, fs)
     | _ =>
         let '(us, fs') := update_all to_upd oc fs in
         if forallb u_err us then (0, true, ls, fs')
-        else (N.of_nat (length (filter u_updated us)), false, map (apply_upd us) ls, fs')
+        else let '(n, ls') := copy_back_all us ls in (n, false, ls', fs')
     end.
 
   (** [enableFiltersLocked] / [newRuleStorage]: enabled lists whose file exists. *)
@@ -107,6 +159,9 @@ Section Refresh.
     flat_map (fun l => if f_enabled l
                        then match fget (f_id l) fs with Some c => [(f_id l, c)] | None => [] end
                        else []) ls.
+
+  Definition rebuild (bl al : list flist) (fs : files) : engine :=
+    {| e_block := snapshot bl fs; e_allow := snapshot al fs |}.
 
   (** [refreshFiltersIntl] *)
   Definition refresh (block allow force : bool) (due : N -> bool) (oc : N -> outcome)
@@ -120,8 +175,62 @@ Section Refresh.
     let eng :=
       if e1 || e2 then r_engine st
       else if n1 + n2 =? 0 then r_engine st
-      else {| e_block := snapshot bl fs2; e_allow := snapshot al fs2 |} in
+      else rebuild bl al fs2 in
     {| r_block := bl; r_allow := al; r_files := fs2; r_engine := eng |}.
+
+  (** ** [filterSetProperties] with an unchanged URL, followed by what
+      [handleFilteringSetURL] does with its result. *)
+
+  Definition unload (f : flist) : flist :=
+    {| f_id := f_id f; f_enabled := f_enabled f; f_name := f_name f; f_count := 0; f_sum := 0 |}.
+
+  (** Result for one entry: (should restart, error, the entry afterwards, files). *)
+  Definition set_entry (f : flist) (name : bytes) (en : bool) (o : outcome) (fs : files)
+      : bool * bool * flist * files :=
+    let f1 := {| f_id := f_id f; f_enabled := en; f_name := name; f_count := f_count f; f_sum := f_sum f |} in
+    let restart := negb (Bool.eqb (f_enabled f) en) in
+    if en then
+      if restart then
+        let '(u, fs') := update_one f1 o fs in
+        if u_err u then
+          (* the deferred function restores URL, name, enabled, last update
+             and rule count; the checksum is what [update] left *)
+          (u_updated u, true,
+           {| f_id := f_id f; f_enabled := f_enabled f; f_name := f_name f; f_count := f_count f;
+              f_sum := f_sum (u_list u) |}, fs')
+        else if u_updated u then (true, false, u_list u, fs')
+        else
+          (* the content has the checksum of an unloaded list, i.e. no rules:
+             whatever file is stored is removed and the engine rebuilt *)
+          (true, false, u_list u, fdel (f_id f) fs')
+      else (false, false, f1, fs)
+    else (restart, false, unload f1, fs).
+
+  Fixpoint set_in (ls : list flist) (i : N) (name : bytes) (en : bool) (o : outcome) (fs : files)
+      : option (bool * bool * list flist * files) :=
+    match ls with
+    | [] => None
+    | f :: r =>
+        if f_id f =? i then
+          let '(rs, er, f', fs') := set_entry f name en o fs in Some (rs, er, f' :: r, fs')
+        else match set_in r i name en o fs with
+             | Some (rs, er, r', fs') => Some (rs, er, f :: r', fs')
+             | None => None
+             end
+    end.
+
+  (** Result: (restart reported, error reported, state).  The engine is
+      rebuilt when there is no error and a restart is required. *)
+  Definition set_props (allow : bool) (i : N) (name : bytes) (en : bool) (o : outcome)
+      (st : rstate) : bool * bool * rstate :=
+    match set_in (if allow then r_allow st else r_block st) i name en o (r_files st) with
+    | None => (false, true, st)
+    | Some (rs, er, ls', fs') =>
+        let bl := if allow then r_block st else ls' in
+        let al := if allow then ls' else r_allow st in
+        let eng := if negb er && rs then rebuild bl al fs' else r_engine st in
+        (rs, er, {| r_block := bl; r_allow := al; r_files := fs'; r_engine := eng |})
+    end.
 End Refresh.
 
 (** ** Which rule is in force for a probe name: the harness only writes rules
